@@ -1111,7 +1111,7 @@ fn main() {
     ck.assume("sub-views are read through Layout::shape() and get(index), which are not under test here (C09 covers them)");
     ck.set_threads(16);
 
-    ck.prop("histories", ck.pick(300_000, 6_000_000), case, oracle);
-    ck.prop("par-smoke", ck.pick(30_000, 400_000), par_case, par_oracle);
+    ck.prop("histories", ck.pick(750_000, 6_000_000), case, oracle);
+    ck.prop("par-smoke", ck.pick(75_000, 400_000), par_case, par_oracle);
     ck.finish();
 }
